@@ -35,7 +35,7 @@ ASSUMPTIONS = ["pvm/ref/oftable.py + ofmatch.py state the 1.0 semantics",
 REQUIRED = ["steps", "tables_compared", "replaced", "modified", "deleted",
             "expired_idle", "expired_hard", "flow_removed_checked",
             "overlap_errors", "packets_counted", "idle_refreshed",
-            "bounded_table_cases", "table_full_errors"]
+            "bounded_table_cases", "table_full_errors", "reconnects"]
 TIMEOUT = {"quick": 900, "thorough": 7200}
 
 FW = OM
@@ -350,6 +350,10 @@ def run_history (case, rep):
       rep.count("steps")
       if op[0] == "fm": r.do_fm(op); name = "flow_mod"
       elif op[0] == "pkt": r.do_pkt(op); name = "traffic"
+      elif op[0] == "reconnect":
+        # the controller connection goes away and a new one takes its place;
+        # the table (and whatever listens to it) stays
+        r.sw.reconnect(); rep.count("reconnects"); name = "reconnect"
       elif op[0] == "tick": r.do_tick(op); continue
       elif op[0] == "sweep": r.do_sweep(op); name = "expiry sweep"
       if not r.bad: r.compare_tables(name)
@@ -383,7 +387,7 @@ def alphabet ():
     A.append(["fm", 3, mi, 0, 0, 3, 0, 0, 0])
   A.append(["fm", 0, 0, 2, SFR, 0xffff, 0, 7, 3])
   A.append(["fm", 0, 5, 1, SFR, 0xffff, 0, 7, 4])
-  A += [["pkt", 0], ["pkt", 1], ["pkt", 4], ["tick", 4], ["sweep"]]
+  A += [["pkt", 0], ["pkt", 1], ["pkt", 4], ["tick", 4], ["sweep"], ["reconnect"]]
   return A
 
 SUFFIX = [["pkt", 0], ["tick", 2], ["sweep"], ["pkt", 1], ["tick", 3],
@@ -415,8 +419,10 @@ def gen_random (rng, count, maxlen):
                     else 0xffff,
                     rng.choice([0, 0, 3, 7]), rng.choice([0, 0, 3, 7]),
                     rng.randrange(len(ACTIONS))])
-      elif r < 0.8:
+      elif r < 0.78:
         ops.append(["pkt", rng.randrange(len(FRAMES))])
+      elif r < 0.8:
+        ops.append(["reconnect"])
       elif r < 0.9:
         ops.append(["tick", rng.choice([1, 2, 3, 4, 8])])
       else:
